@@ -1,91 +1,225 @@
 import CirqVerif.Spec.Circuit
 import CirqVerif.Base.CFloat
+import CirqVerif.Base.Q8
 /-!
-# OpenQASM 2.0 `qelib1.inc` (and the 3.0 `stdgates.inc` names Cirq emits) — trusted transcription
+# OpenQASM 2.0 `qelib1.inc` (and the 3.0 `stdgates.inc` names) — trusted transcription
 
 Every library gate is expanded into the two built-in operations `U(θ,φ,λ)` and `CX` exactly as `qelib1.inc`
-defines it; the built-ins get their matrices from the OpenQASM specification.  A program is interpreted with
-the reference semantics `Spec.Circuit` (measurement of one qubit into one classical bit, `if (creg == v)`).
+defines it (`sx`, `sxdg`, `swap`, `cswap`, `p`, `cp` as in the extended `qelib1.inc` shipped with Qiskit and in
+`stdgates.inc`); the built-ins get their matrices from the OpenQASM 2.0 specification.  The definitions are
+polymorphic in the type of angles and of amplitudes, so that the same text is *executed* on floats (to interpret
+the QASM Cirq emits) and *evaluated exactly* in ℚ(ζ₈) with angles in units of π/4 (`Props.C19`: the expansions of
+the parameter-free gates are the textbook matrices).
+
+A program is a list of statements over one quantum register and named classical registers; its semantics is
+the set of branches (unnormalised state, classical registers) — projective measurement of one qubit into one
+classical bit, `if (creg == v)` / `if (creg != v)` on the little-endian integer value of a register, `reset`.
 -/
 namespace CirqVerif.Qasm
 open CirqVerif CirqVerif.Circ
 
-inductive Prim where
-  | u (theta phi lam : Float) (q : Nat)
+/-- what the expansions need from angles -/
+class Angle (A : Type) where
+  zero : A
+  pi : A
+  half : A → A
+  neg : A → A
+  add : A → A → A
+
+inductive Prim (A : Type) where
+  | u (theta phi lam : A) (q : Nat)
   | cx (c t : Nat)
   deriving Repr
 
-def pi : Float := 3.141592653589793
+section expand
+variable {A : Type} [Angle A]
+open Angle
 
-/-- expansion of a library gate application into built-ins (argument positions refer to `qs`) -/
-partial def expand (name : String) (p : List Float) (qs : List Nat) : Option (List Prim) :=
-  let a := qs.getD 0 0; let b := qs.getD 1 0; let c := qs.getD 2 0
-  let p0 := p.getD 0 0; let p1 := p.getD 1 0; let p2 := p.getD 2 0
-  let seq (l : List (String × List Float × List Nat)) : Option (List Prim) :=
-    l.foldl (fun acc (n, ps, q) => match acc, expand n ps q with
-      | some xs, some ys => some (xs ++ ys) | _, _ => none) (some [])
-  match name with
-  | "U" | "u3" | "u" => some [.u p0 p1 p2 a]
-  | "u2" => some [.u (pi / 2) p0 p1 a]
-  | "u1" | "p" | "phase" => some [.u 0 0 p0 a]
-  | "CX" | "cx" => some [.cx a b]
-  | "id" => some [.u 0 0 0 a]
-  | "x" => expand "u3" [pi, 0, pi] [a]
-  | "y" => expand "u3" [pi, pi / 2, pi / 2] [a]
-  | "z" => expand "u1" [pi] [a]
-  | "h" => expand "u2" [0, pi] [a]
-  | "s" => expand "u1" [pi / 2] [a]
-  | "sdg" => expand "u1" [-(pi / 2)] [a]
-  | "t" => expand "u1" [pi / 4] [a]
-  | "tdg" => expand "u1" [-(pi / 4)] [a]
-  | "rx" => expand "u3" [p0, -(pi / 2), pi / 2] [a]
-  | "ry" => expand "u3" [p0, 0, 0] [a]
-  | "rz" => expand "u1" [p0] [a]
-  | "sx" => seq [("sdg", [], [a]), ("h", [], [a]), ("sdg", [], [a])]
-  | "sxdg" => seq [("s", [], [a]), ("h", [], [a]), ("s", [], [a])]
-  | "cz" => seq [("h", [], [b]), ("cx", [], [a, b]), ("h", [], [b])]
-  | "cy" => seq [("sdg", [], [b]), ("cx", [], [a, b]), ("s", [], [b])]
-  | "swap" => seq [("cx", [], [a, b]), ("cx", [], [b, a]), ("cx", [], [a, b])]
-  | "ch" => seq [("h", [], [b]), ("sdg", [], [b]), ("cx", [], [a, b]), ("h", [], [b]), ("t", [], [b]), ("cx", [], [a, b]),
-                 ("t", [], [b]), ("h", [], [b]), ("s", [], [b]), ("x", [], [b]), ("s", [], [a])]
-  | "ccx" => seq [("h", [], [c]), ("cx", [], [b, c]), ("tdg", [], [c]), ("cx", [], [a, c]), ("t", [], [c]), ("cx", [], [b, c]),
-                  ("tdg", [], [c]), ("cx", [], [a, c]), ("t", [], [b]), ("t", [], [c]), ("h", [], [c]), ("cx", [], [a, b]),
-                  ("t", [], [a]), ("tdg", [], [b]), ("cx", [], [a, b])]
-  | "cswap" => seq [("cx", [], [c, b]), ("ccx", [], [a, b, c]), ("cx", [], [c, b])]
-  | "crz" => seq [("u1", [p0 / 2], [b]), ("cx", [], [a, b]), ("u1", [-(p0 / 2)], [b]), ("cx", [], [a, b])]
-  | "cu1" | "cp" => seq [("u1", [p0 / 2], [a]), ("cx", [], [a, b]), ("u1", [-(p0 / 2)], [b]), ("cx", [], [a, b]), ("u1", [p0 / 2], [b])]
-  | _ => none
+/-- names defined by OpenQASM 3.0's `stdgates.inc` (no `sxdg`, no `u0`) -/
+def stdgates3 : List String :=
+  ["p", "x", "y", "z", "h", "s", "sdg", "t", "tdg", "sx", "rx", "ry", "rz", "cx", "cy", "cz", "cp", "crx", "cry", "crz",
+   "ch", "swap", "ccx", "cswap", "cu", "CX", "phase", "cphase", "id", "u1", "u2", "u3", "U"]
 
-/-- matrix of the built-in `U(θ,φ,λ)` (row-major) -/
-def uMatrix (θ φ lam : Float) : Array CFloat :=
-  let c := Float.cos (θ / 2); let s := Float.sin (θ / 2)
-  #[⟨c, 0⟩, CFloat.scale (-s) (CFloat.cis lam), CFloat.scale s (CFloat.cis φ), CFloat.scale c (CFloat.cis (φ + lam))]
+/-- expansion of a library gate application into built-ins, by recursion on the definition depth (fuel) -/
+def expand : Nat → String → List A → List Nat → Option (List (Prim A))
+  | 0, _, _, _ => none
+  | fuel + 1, name, p, qs =>
+    let a := qs.getD 0 0; let b := qs.getD 1 0; let c := qs.getD 2 0
+    let p0 := p.getD 0 zero; let p1 := p.getD 1 zero; let p2 := p.getD 2 zero
+    let hpi : A := half pi
+    let qpi : A := half (half pi)
+    let seq (l : List (String × List A × List Nat)) : Option (List (Prim A)) :=
+      l.foldl (fun acc (n, ps, q) => match acc, expand fuel n ps q with
+        | some xs, some ys => some (xs ++ ys) | _, _ => none) (some [])
+    match name with
+    | "U" | "u3" | "u" => some [.u p0 p1 p2 a]
+    | "u2" => some [.u hpi p0 p1 a]
+    | "u1" | "p" | "phase" => some [.u zero zero p0 a]
+    | "CX" | "cx" => some [.cx a b]
+    | "id" => some [.u zero zero zero a]
+    | "x" => seq [("u3", [pi, zero, pi], [a])]
+    | "y" => seq [("u3", [pi, hpi, hpi], [a])]
+    | "z" => seq [("u1", [pi], [a])]
+    | "h" => seq [("u2", [zero, pi], [a])]
+    | "s" => seq [("u1", [hpi], [a])]
+    | "sdg" => seq [("u1", [neg hpi], [a])]
+    | "t" => seq [("u1", [qpi], [a])]
+    | "tdg" => seq [("u1", [neg qpi], [a])]
+    | "rx" => seq [("u3", [p0, neg hpi, hpi], [a])]
+    | "ry" => seq [("u3", [p0, zero, zero], [a])]
+    | "rz" => seq [("u1", [p0], [a])]
+    | "sx" => seq [("sdg", [], [a]), ("h", [], [a]), ("sdg", [], [a])]
+    | "sxdg" => seq [("s", [], [a]), ("h", [], [a]), ("s", [], [a])]
+    | "cz" => seq [("h", [], [b]), ("cx", [], [a, b]), ("h", [], [b])]
+    | "cy" => seq [("sdg", [], [b]), ("cx", [], [a, b]), ("s", [], [b])]
+    | "swap" => seq [("cx", [], [a, b]), ("cx", [], [b, a]), ("cx", [], [a, b])]
+    | "ch" => seq [("h", [], [b]), ("sdg", [], [b]), ("cx", [], [a, b]), ("h", [], [b]), ("t", [], [b]), ("cx", [], [a, b]),
+                   ("t", [], [b]), ("h", [], [b]), ("s", [], [b]), ("x", [], [b]), ("s", [], [a])]
+    | "ccx" => seq [("h", [], [c]), ("cx", [], [b, c]), ("tdg", [], [c]), ("cx", [], [a, c]), ("t", [], [c]), ("cx", [], [b, c]),
+                    ("tdg", [], [c]), ("cx", [], [a, c]), ("t", [], [b]), ("t", [], [c]), ("h", [], [c]), ("cx", [], [a, b]),
+                    ("t", [], [a]), ("tdg", [], [b]), ("cx", [], [a, b])]
+    | "cswap" => seq [("cx", [], [c, b]), ("ccx", [], [a, b, c]), ("cx", [], [c, b])]
+    | "crz" => seq [("u1", [half p0], [b]), ("cx", [], [a, b]), ("u1", [neg (half p0)], [b]), ("cx", [], [a, b])]
+    | "cu1" | "cp" | "cphase" =>
+      seq [("u1", [half p0], [a]), ("cx", [], [a, b]), ("u1", [neg (half p0)], [b]), ("cx", [], [a, b]), ("u1", [half p0], [b])]
+    | _ => none
 
-def cxMatrix : Array CFloat :=
+/-- definitions nest at most five deep (`cswap → ccx → tdg → u1 → U`) -/
+def expandGate (name : String) (p : List A) (qs : List Nat) : Option (List (Prim A)) := expand 8 name p qs
+
+end expand
+
+/-! ### matrices of the built-ins -/
+
+/-- what the built-in `U` needs from amplitudes: `cos(θ/2)`, `sin(θ/2)`, `e^{iα}` -/
+structure Trig (A R : Type) where
+  cosHalf : A → R
+  sinHalf : A → R
+  cis : A → R
+
+section mats
+variable {A R : Type} [Angle A] [Mul R] [Neg R] [OfNat R 0] [OfNat R 1]
+
+/-- `U(θ,φ,λ) = [[cos θ/2, −e^{iλ} sin θ/2], [e^{iφ} sin θ/2, e^{i(φ+λ)} cos θ/2]]` (row-major) -/
+def uMatrix (T : Trig A R) (θ φ lam : A) : Array R :=
+  #[T.cosHalf θ, -(T.sinHalf θ * T.cis lam), T.sinHalf θ * T.cis φ, T.cosHalf θ * T.cis (Angle.add φ lam)]
+
+def cxMatrix : Array R :=
   #[1, 0, 0, 0,  0, 1, 0, 0,  0, 0, 0, 1,  0, 0, 1, 0]
 
-def primOp : Prim → Op CFloat
-  | .u θ φ lam q => .unitary (uMatrix θ φ lam) [q]
-  | .cx c t => .unitary cxMatrix [c, t]
+def primArrOp (T : Trig A R) : Prim A → ArrOp R
+  | .u θ φ lam q => { matrix := uMatrix T θ φ lam, axes := [q] }
+  | .cx c t => { matrix := cxMatrix, axes := [c, t] }
 
-inductive Stmt where
-  | gate (name : String) (params : List Float) (qs : List Nat)
+end mats
+
+/-! ### float instance (execution) -/
+
+instance : Angle Float where
+  zero := 0
+  pi := 3.141592653589793
+  half x := x / 2
+  neg x := -x
+  add x y := x + y
+
+def floatTrig : Trig Float CFloat where
+  cosHalf θ := ⟨Float.cos (θ / 2), 0⟩
+  sinHalf θ := ⟨Float.sin (θ / 2), 0⟩
+  cis α := CFloat.cis α
+
+/-! ### exact instance: angles in units of π/4, amplitudes in ℚ(ζ₈)
+
+`half` is integer division: exact for the even multiples that the parameter-free gates use (θ ∈ {0, π/2, π}
+is halved once inside `U`; π is halved twice to give π/4). -/
+
+structure Oct where
+  k : Int
+  deriving DecidableEq, Repr
+
+instance : Angle Oct where
+  zero := ⟨0⟩
+  pi := ⟨4⟩
+  half x := ⟨x.k / 2⟩
+  neg x := ⟨-x.k⟩
+  add x y := ⟨x.k + y.k⟩
+
+/-- `e^{ikπ/4} = ζ₈^k` -/
+def octCis (x : Oct) : Q8 := Q8.zetaPow (x.k % 8).toNat
+
+/-- for θ = 2j·π/4: `cos(θ/2) = (ζ^j + ζ^{-j})/2`, `sin(θ/2) = (ζ^j − ζ^{-j})/(2i)` -/
+def octTrig : Trig Oct Q8 where
+  cosHalf θ := let j : Oct := ⟨θ.k / 2⟩; Q8.half * (octCis j + octCis ⟨-j.k⟩)
+  sinHalf θ := let j : Oct := ⟨θ.k / 2⟩; Q8.half * (-(Q8.I)) * (octCis j + -(octCis ⟨-j.k⟩))
+  cis := octCis
+
+/-! ### programs -/
+
+inductive Stmt (A : Type) where
+  | gate (name : String) (params : List A) (qs : List Nat)
   | measure (q : Nat) (creg : String) (bit : Nat)
-  | cond (creg : String) (bit : Nat) (equal : Bool) (body : Stmt)   -- single-bit register compared with 1 (==) or 0 (!=)
+  | cond (creg : String) (value : Nat) (equal : Bool) (body : Stmt A)   -- `if (creg == value)` / `if (creg != value)`
   | reset (q : Nat)
 
-/-- classical bit `creg[bit]` is recorded under the key `creg[bit]` -/
-def bitKey (creg : String) (bit : Nat) : String := s!"{creg}[{bit}]"
+structure QState (R : Type) where
+  state : Array R
+  cregs : List (String × List Nat)     -- bits, index 0 first
 
-partial def stmtOps : Stmt → Option (List (Op CFloat))
-  | .gate n p qs => (expand n p qs).map (·.map primOp)
-  | .measure q creg bit => some [.measure (bitKey creg bit) [q] [false] []]
-  | .reset q => some [.reset [q]]
-  | .cond creg bit equal body =>
-    -- `if (c == 1)` on a one-bit register = "the bit is non-zero"; `if (c != 0)` the same
-    (stmtOps body).map (fun ops => ops.map (fun o => .controlled [Cond.key (bitKey creg bit) (-1)] o))
+def getBits : List (String × List Nat) → String → List Nat
+  | [], _ => []
+  | (n, bits) :: rest, c => if n = c then bits else getBits rest c
 
-def programOps (stmts : List Stmt) : Option (List (Op CFloat)) :=
-  stmts.foldl (fun acc s => match acc, stmtOps s with | some xs, some ys => some (xs ++ ys) | _, _ => none) (some [])
+def setBit : List (String × List Nat) → String → Nat → Nat → List (String × List Nat)
+  | [], _, _, _ => []
+  | (n, bits) :: rest, c, i, v => (if n = c then (n, bits.set i v) else (n, bits)) :: setBit rest c i v
+
+/-- integer value of a classical register: bit 0 is the least significant -/
+def cregValue (bits : List Nat) : Nat := bits.foldr (fun b acc => b + 2 * acc) 0
+
+section sem
+variable {A R : Type} [Angle A] [Add R] [Mul R] [Neg R] [OfNat R 0] [OfNat R 1] [Inhabited R]
+variable (T : Trig A R) (nsq : R → R) (negligible : R → Bool)
+
+inductive QErr where
+  | undefinedGate (name : String)
+  deriving Repr
+
+def stepStmt (nq : Nat) (b : QState R) : Stmt A → Except QErr (List (QState R))
+  | .gate name ps qs =>
+    match expandGate name ps qs with
+    | none => .error (.undefinedGate name)
+    | some prims => .ok [{ b with state := runArr (List.replicate nq 2) b.state (prims.map (primArrOp T)) }]
+  | .measure q creg bit =>
+    .ok ([0, 1].filterMap (fun a =>
+      let st := project (List.replicate nq 2) [q] [a] b.state
+      if negligible (normSq nsq st) then none else some { state := st, cregs := setBit b.cregs creg bit a }))
+  | .cond creg v equal body =>
+    if (cregValue (getBits b.cregs creg) == v) == equal then stepStmt nq b body else .ok [b]
+  | .reset q =>
+    .ok ([0, 1].filterMap (fun a =>
+      let shape := List.replicate nq 2
+      let st := project shape [q] [a] b.state
+      if negligible (normSq nsq st) then none
+      else
+        let moved : Array R := Array.ofFn (n := st.size) (fun p =>
+          let idx := unflatten shape p.val
+          if getAxes idx [q] == [0] then st.getD (flatIndex shape (setAxes idx [q] [a])) 0 else 0)
+        some { b with state := moved }))
+
+def runProgram (nq : Nat) (cregs : List (String × Nat)) (init : Array R) (stmts : List (Stmt A)) :
+    Except QErr (List (QState R)) :=
+  stmts.foldlM (fun bs s => do
+      let nexts ← bs.mapM (fun b => stepStmt T nsq negligible nq b s)
+      return nexts.flatten)
+    [{ state := init, cregs := cregs.map (fun (n, k) => (n, List.replicate k 0)) }]
+
+/-- the unitary of a measurement-free gate list, column by column -/
+def gateListColumns (nq : Nat) (gates : List (String × List A × List Nat)) : Option (List (Array R)) :=
+  let prims := gates.foldl (fun acc (n, ps, qs) => match acc, expandGate n ps qs with
+    | some xs, some ys => some (xs ++ ys) | _, _ => none) (some [])
+  prims.map (fun ps =>
+    let n := 2 ^ nq
+    (List.range n).map (fun k => runArr (List.replicate nq 2) ((Array.replicate n (0 : R)).set! k 1) (ps.map (primArrOp T))))
+
+end sem
 
 end CirqVerif.Qasm
